@@ -131,7 +131,15 @@ pub fn run(opts: &HashMap<String, String>) -> i32 {
             let lit = ["u8", "usize"][(id % 2) as usize];
             let p = if fmt != "btor2" && id % 3 == 0 { format!("{}_parse", fmt) } else { fmt.to_string() };
             let base = RunCfg::reference(&p, lit, false);
-            run_traced(rid, &doc, &base);
+            // every document is judged absolutely by the reference readings: one read of everything, or byte by byte
+            if id % 4 < 2 {
+                run_traced(rid, &doc, &base);
+            } else {
+                let v = variant(&base, Policy::Fixed(1), "fixed1", [1usize, 3][(id % 2) as usize], 0, seed ^ id);
+                let mut v = v;
+                v.is_ref = true;
+                run_traced(rid, &doc, &v);
+            }
             runs += 1;
             continue;
         }
